@@ -322,7 +322,7 @@ def readBytes : List Call → Bytes
   | _ :: cs => readBytes cs
 def writeBytes : List Call → Bytes
   | [] => []
-  | .write d _ :: cs => d ++ writeBytes cs
+  | .write d _ _ :: cs => d ++ writeBytes cs
   | _ :: cs => writeBytes cs
 
 /-- the frames of one direction among the wire events, in order -/
